@@ -28,8 +28,12 @@ pub struct ConnInfo {
     pub shard: u16,
     pub shard_aware_port: bool,
     pub peer_port: u16,
-    /// keyspace acknowledged by the last RESULT/SetKeyspace sent on this connection
+    /// keyspace acknowledged by the last RESULT/SetKeyspace WRITTEN COMPLETELY on this connection
+    /// (a delayed, held, cut or stalled reply does not acknowledge anything until/unless it is written)
     pub keyspace: Option<String>,
+    /// keyspace of the last USE request handled (answered with SetKeyspace), whether or not the reply
+    /// has been written yet
+    pub requested_keyspace: Option<String>,
     /// event types of the last REGISTER (non-empty = the driver's control connection)
     pub registered: Vec<String>,
     /// number of requests received after the handshake
@@ -432,6 +436,9 @@ struct Job {
     delay_ms: u64,
     /// internal: the max-hold timer of a held reply fired
     release_held: Option<u64>,
+    /// keyspace that becomes the connection's ACKED keyspace when this reply has been written
+    /// completely (RESULT/SetKeyspace)
+    ack_ks: Option<String>,
 }
 
 struct Conn {
@@ -443,6 +450,10 @@ struct Conn {
     started: bool,
     metadata_id_ext: bool,
     keyspace: Option<String>,
+    /// keyspace of the last USE handled (its reply may not be written yet)
+    requested_keyspace: Option<String>,
+    /// set by `handle`/`builtin` for the reply under construction
+    pending_ack: Option<String>,
     stalled: bool,
     sent: usize,
     held: Vec<(u64, usize, Job)>,
@@ -476,6 +487,7 @@ async fn serve_conn(sh: Arc<Shared>, node: usize, stream: TcpStream, peer: Socke
                 shard_aware_port: shard_aware,
                 peer_port: peer.port(),
                 keyspace: None,
+                requested_keyspace: None,
                 registered: vec![],
                 requests: 0,
             },
@@ -513,6 +525,8 @@ async fn serve_conn(sh: Arc<Shared>, node: usize, stream: TcpStream, peer: Socke
         started: false,
         metadata_id_ext: false,
         keyspace: None,
+        requested_keyspace: None,
+        pending_ack: None,
         stalled: false,
         sent: 0,
         held: Vec::new(),
@@ -527,7 +541,7 @@ async fn serve_conn(sh: Arc<Shared>, node: usize, stream: TcpStream, peer: Socke
                 Some(ConnCmd::Close(k)) => { break 'main cut(&c.lg(), &mut wr, k).await; }
                 Some(ConnCmd::Event(body)) => {
                     let f = Frame::response(-1, op::EVENT, body);
-                    if let Some(k) = c.write_job(&mut wr, Job { out: Out::Frame(f), cut: None, reorder: 0, delay_ms: 0, release_held: None }, &mut pending).await {
+                    if let Some(k) = c.write_job(&mut wr, Job { out: Out::Frame(f), cut: None, reorder: 0, delay_ms: 0, release_held: None, ack_ks: None }, &mut pending).await {
                         break 'main k;
                     }
                 }
@@ -642,7 +656,7 @@ impl Conn {
             self.held.push((hid, target, j));
             pending.push(Box::pin(async move {
                 tokio::time::sleep(REORDER_MAX_HOLD).await;
-                Job { out: Out::Nothing, cut: None, reorder: 0, delay_ms: 0, release_held: Some(hid) }
+                Job { out: Out::Nothing, cut: None, reorder: 0, delay_ms: 0, release_held: Some(hid), ack_ks: None }
             }));
             return None;
         }
@@ -655,6 +669,7 @@ impl Conn {
             if self.stalled {
                 continue;
             }
+            let ack = job.ack_ks.clone();
             match job.out {
                 Out::Nothing => {}
                 Out::Stall => {
@@ -728,6 +743,12 @@ impl Conn {
                     if r.is_err() {
                         return Some(CloseBy::Client);
                     }
+                    if n == enc.len() {
+                        // the SetKeyspace reply is on the wire in full: from now on the keyspace is acked
+                        if let Some(ks) = ack {
+                            self.ack_keyspace(ks);
+                        }
+                    }
                     if let Some((_, k)) = job.cut {
                         return Some(cut(&self.lg(), wr, k).await);
                     }
@@ -752,10 +773,11 @@ impl Conn {
 
     /// Decides the answer to one request frame.
     fn handle(&mut self, f: Frame) -> Job {
+        self.pending_ack = None;
         let seq = self.sh.seq.fetch_add(1, Ordering::SeqCst);
         self.log(Ev::In { version: f.version, flags: f.flags, stream: f.stream, opcode: f.opcode, body: f.body.clone() });
         let stream = f.stream;
-        let plain = |out: Out| Job { out, cut: None, reorder: 0, delay_ms: 0, release_held: None };
+        let plain = |out: Out| Job { out, cut: None, reorder: 0, delay_ms: 0, release_held: None, ack_ks: None };
         let frame = |opcode: u8, body: Vec<u8>| Out::Frame(Frame::response(stream, opcode, body));
         let perr = |msg: &str| frame(op::ERROR, body_error(&ErrorSpec::new(DbErr::ProtocolError, msg)));
         if f.flags & wire::flag::COMPRESSION != 0 {
@@ -808,6 +830,7 @@ impl Conn {
             params: None,
             batch: None,
             keyspace: self.keyspace.clone(),
+            requested_keyspace: self.requested_keyspace.clone(),
             is_system: false,
         };
         let key = match f.opcode {
@@ -966,14 +989,31 @@ impl Conn {
             }
         }
         job.out = out;
+        // only a frame acknowledges (a scripted NoReply/Garbage/Stall after SetKeyspace does not)
+        job.ack_ks = match &job.out {
+            Out::Frame(_) => self.pending_ack.take(),
+            _ => {
+                self.pending_ack = None;
+                None
+            }
+        };
         job
     }
 
+    /// A USE was handled: remember what the reply under construction will acknowledge.
     fn set_keyspace(&mut self, ks: &str) {
-        self.keyspace = Some(ks.to_string());
+        self.requested_keyspace = Some(ks.to_string());
+        self.pending_ack = Some(ks.to_string());
         if let Some(e) = self.ns.conns.lock().unwrap().get_mut(&self.conn_id) {
-            e.info.keyspace = Some(ks.to_string());
+            e.info.requested_keyspace = Some(ks.to_string());
         }
+    }
+    /// The SetKeyspace reply has been written completely: the keyspace is acknowledged.
+    fn ack_keyspace(&mut self, ks: String) {
+        if let Some(e) = self.ns.conns.lock().unwrap().get_mut(&self.conn_id) {
+            e.info.keyspace = Some(ks.clone());
+        }
+        self.keyspace = Some(ks);
     }
 
     fn supported(&self, stream: i16) -> Out {
